@@ -5,8 +5,8 @@ import math
 from .model import load_model
 from .harness import partition, valuations
 from . import spec
-from .evalengine import (depth1_instances, depth2_instances, constant_child_instances, pmap, param_class,
-                         region_class)
+from .evalengine import (depth1_instances, depth2_instances, constant_child_instances, inspected_child_instances,
+                         wide_nary_instances, pmap, param_class, region_class)
 from .derivengine import deriv_group, ROUTES
 
 E = math.e
@@ -88,10 +88,19 @@ def derivative_cases(model, tier, include_undefined_children, routes):
     inst = [(t, l, False) for (t, l) in inst1 if t[0] != "Constant" or t[1] in (0, 2.0)]
     inst += [(t, l, False) for (t, l) in chain_instances(model, tier)]
     inst += [(t, l, False) for (t, l) in constant_child_instances(model, tier)]
+    wide = [(t, l) for (t, l) in inspected_child_instances(model, tier) if "<same" not in l] + \
+        wide_nary_instances(model, tier)
     if include_undefined_children:
         inst += [(t, l, True) for (t, l) in depth2_instances(model, tier)]
     cases = []
     d2_routes = [r for r in routes if r in DEPTH2_ROUTES] if tier == "quick" else routes
+    from .simpengine import SIGN_REGIONS
+    for tree, label in wide:
+        names = spec.variables(tree)
+        vars_ = names[:1] + names[-1:] if len(names) > 1 else list(names)
+        for val in valuations(names, SIGN_REGIONS if len(names) > 1 else coarse):
+            for v in dict.fromkeys(vars_):
+                cases.append((tree, label, val, v, d2_routes if tier == "quick" else routes))
     for tree, label, is_d2 in inst:
         names = spec.variables(tree)
         if is_d2:
